@@ -146,7 +146,9 @@ func (self ValueString) iterReset() {
 }
 
 func (self ValueString) IntoIter() func() (Value, bool) {
-	return self.iterNext
+	// Every loop owns its cursor: a loop which is left early must not leave its position behind for the next one.
+	zero := 0
+	return ValueString{Inner: self.Inner, currIterIdx: &zero}.iterNext
 }
 
 func NewValueString(inner string) *Value {
